@@ -18,8 +18,8 @@ from __future__ import annotations
 import ast
 
 from ..cfg import CFG
-from ..consteval import ConstEval
-from ..core import AnalysisError, ancestors, ap, atoms, calls, conditions, find_calls, is_none_test, norm, walk
+from ..consteval import ConstEval, enum_members
+from ..core import AnalysisError, ancestors, ap, atoms, calls, conditions, find_calls, is_none_test, norm, stores, walk
 from .common import class_methods_reachable
 
 SER = "hippolyzer/lib/base/message/udpserializer.py"
@@ -306,6 +306,15 @@ class ByteLoopInterp:
                 v = ConstEval(self.repo, base[2].module).ev(cv) if cv is not None else None
             elif not (isinstance(e, ast.Name) and self._is_local(e.id)):
                 v = self.cev().ev(e)
+            if type(v).__name__ == "EnumVal":
+                # a member of a (state) enum: its integer value, else its position among the members - all that
+                # matters is that different members are different numbers
+                if isinstance(v.value, int) and not isinstance(v.value, bool):
+                    v = v.value
+                else:
+                    ecls = self.repo.resolve_class(v.cls, self.cur.module) or next(iter(self.repo.classes.get(v.cls, [])), None)
+                    names = list(enum_members(self.repo, ecls)) if ecls is not None else []
+                    v = names.index(v.name) if v.name in names else None
             if isinstance(v, int) and not isinstance(v, bool):
                 return (v, v)
             self.bad(e, "name / attribute without a known integer value")
@@ -431,7 +440,10 @@ class ByteLoopInterp:
                     self.bad(t, "None test on something that is neither a parameter nor an integer local")
                 truth = is_none == isinstance(t.ops[0], ast.Is)
                 return (env, None) if truth else (None, env)
-            return self._cmp(t, t.left, t.ops[0], t.comparators[0], env)
+            op = t.ops[0]
+            if isinstance(op, (ast.Is, ast.IsNot)):
+                op = ast.Eq() if isinstance(op, ast.Is) else ast.NotEq()
+            return self._cmp(t, t.left, op, t.comparators[0], env)
         if isinstance(t, ast.Constant):
             return (env, None) if t.value else (None, env)
         key = self._key(t)
@@ -1265,11 +1277,47 @@ class ByteLoopInterp:
 
 # --------------------------------------------------------------------------- rules
 
+def codec_fn(repo, cls_name, meth):
+    """The zero-coding function anchored as <cls_name>.<meth>: the method itself (also inherited), or - when the class
+    only keeps `meth = staticmethod(<module function>)` / `meth = <module function>` - that function, wherever it
+    lives in the tree."""
+    f = repo.fn_opt(f"{cls_name}.{meth}")
+    if f is not None:
+        return f
+    cands = repo.classes.get(cls_name, [])
+    if len(cands) != 1:
+        raise AnalysisError(f"anchor class {cls_name} resolves to {len(cands)} classes")
+    ci = cands[0]
+    node = repo.class_attr(ci, meth)
+    while isinstance(node, ast.Call) and ap(node.func) in ("staticmethod", "classmethod") and len(node.args) == 1:
+        node = node.args[0]
+    path = ap(node) if node is not None else None
+    if path is None:
+        raise AnalysisError(f"anchor function {cls_name}.{meth} vanished (no method, no alias of a function)")
+    parts = path.split(".")
+    mod = ci.module
+    target_mod, fname = mod, parts[-1]
+    if len(parts) == 1:
+        tgt = mod.imports.get(parts[0])
+        if tgt:
+            target_mod = repo.by_modname.get(tgt.rpartition(".")[0])
+            fname = tgt.rpartition(".")[2]
+    else:
+        tgt = mod.imports.get(parts[0])
+        dotted = ".".join([tgt] + parts[1:-1]) if tgt else None
+        target_mod = repo.by_modname.get(dotted) if dotted else None
+    hits = [g for g in repo.funcs.get(fname, []) if g.cls is None and g.parent_fn is None
+            and (target_mod is None or g.module is target_mod)]
+    if len(hits) != 1:
+        raise AnalysisError(f"anchor function {cls_name}.{meth} = {path}: resolves to {len(hits)} functions")
+    return hits[0]
+
+
 def r1(ctx):
     repo = ctx.repo
     ctx.rule("C03.R1", "bounded expansion: abstract interpretation (intervals, all inputs) proves a finite upper bound "
                        "on the length of the buffer zero_code_expand returns")
-    f = repo.fn("UDPMessageDeserializer.zero_code_expand")
+    f = codec_fn(repo, "UDPMessageDeserializer", "zero_code_expand")
     it = ByteLoopInterp(repo, f).run()
     ctx.floor("C03.R1", "buffer growth sites in zero_code_expand", len(it.sites), 2)
     worst = 0
@@ -1308,7 +1356,7 @@ def r2(ctx):
     ctx.rule("C03.R2", "canonical emission: output typestate of zero_code_compress over all inputs - every 0x00 is "
                        "followed by a count in 1..255, never 0x00 0x00 (wrap form), no dangling 0x00 at the end; "
                        "count byte == zeros consumed since the last flush, literals only after a flush")
-    f = repo.fn("UDPMessageSerializer.zero_code_compress")
+    f = codec_fn(repo, "UDPMessageSerializer", "zero_code_compress")
     it = ByteLoopInterp(repo, f, typestate=True).run()
     ctx.floor("C03.R2", "emission sites in zero_code_compress", len(it.sites), 2)
     for nid, node in it.sites.items():
@@ -1345,6 +1393,20 @@ def r3(ctx):
     from ..engine import RenamedCtx
     from . import c01
     c01.r6(RenamedCtx(ctx, {"C01.R6": "C03.R3"}))
+    # ... and *only* those: the header stage must expand a bounded prefix of the still-encoded datagram.  Expanding
+    # the whole datagram first lets the size cap (a property of the body) reject a packet whose header is fine, so
+    # it can no longer be named / kept as a raw body and forwarded.
+    repo = ctx.repo
+    hf = repo.fn("UDPMessageDeserializer._parse_message_header")
+    for c in find_calls(hf.node, "zero_code_expand"):
+        arg = c.args[0] if c.args else None
+        if isinstance(arg, ast.Name):
+            vals = [st.value for st in stores(hf.node, into_defs=False) if st.path == arg.id and st.value is not None]
+            arg = vals[-1] if len(vals) >= 1 else arg
+        bounded = isinstance(arg, ast.Subscript) and isinstance(arg.slice, ast.Slice) and arg.slice.upper is not None
+        ctx.ob("C03.R3", f"{hf.qual}: header peek expands a bounded prefix of the datagram", bounded, ctx.w(hf, c),
+               f"expands {norm(arg) if arg is not None else '?'}: the whole body is zero-decoded in the header stage, so an "
+               f"over-cap body makes the header parse fail")
 
 
 def _gate_conditions(node, fn_node):
